@@ -22,7 +22,7 @@ CONSTANTS NOps,      \* operations are numbered 1..NOps; their kinds are given b
 \* kinds of operations in the pool (index = operation number, see lib/genhist.py)
 Kinds == <<"run_ok", "parse_err_eof", "parse_err_mid", "lex_err", "check_err", "run_err_in_loops", "run_exit_in_loop",
            "run_cancelled", "run_use", "run_err_after_return", "run_rename_drop", "parse_rejected_operand", "run_v2",
-           "run_err_in_if", "run_err_in_cond", "run_bq_keywords", "run_emptymap_write", "run_emptymap_read", "run_void_into_keys", "run_typed_fields", "run_loadjson_mutate", "run_grok_digits", "run_grok_letters", "check_err_grok", "run_sql_bs1", "run_sql_bs2",
+           "run_err_in_if", "run_err_in_cond", "run_bq_keywords", "run_emptymap_write", "run_emptymap_read", "run_void_into_keys", "run_typed_fields", "run_loadjson_mutate", "check_err_in_loop", "check_err_stray_break", "run_grok_digits", "run_grok_letters", "check_err_grok", "run_sql_bs1", "run_sql_bs2",
            "run_ok">>
 \* operation NOps + k re-runs the script that operation k loaded earlier in the same history (no load in between)
 KindOf(o) == IF o > NOps THEN "rerun" ELSE Kinds[((o - 1) % Len(Kinds)) + 1]
@@ -34,7 +34,7 @@ Reset == [o \in Objects |-> ResetOf(o)]
 WritesFirst == [o \in Objects |-> WritesFirstOf(o)]
 \* objects and fields an operation of each kind uses
 Uses(k) == IF k \in {"parse_err_eof", "parse_err_mid", "lex_err", "parse_rejected_operand"} THEN {"parser"}
-           ELSE IF k \in {"check_err", "check_err_grok"} THEN {"parser", "task"}
+           ELSE IF k \in {"check_err", "check_err_grok", "check_err_in_loop", "check_err_stray_break"} THEN {"parser", "task"}
            ELSE IF k = "run_v2" THEN {"parser"}
            ELSE IF k = "rerun" THEN {"task", "point"}
            ELSE {"parser", "task", "point"}
